@@ -2649,6 +2649,7 @@ static int jdf_generate_dataflow( const jdf_t *jdf, const jdf_function_entry_t* 
 {
     char *sym_type, *depname, *condname, *sep;
     int alldeps_type, depid, indepnorange = 1;
+    int nb_dep_in = 0, nb_dep_out = 0, *pnb;  /* entries emitted in the dep_in / dep_out tables */
     string_arena_t *sa = string_arena_new(64);
     string_arena_t *sa_dep_in = string_arena_new(64);
     string_arena_t *sa_dep_out = string_arena_new(64);
@@ -2675,9 +2676,11 @@ static int jdf_generate_dataflow( const jdf_t *jdf, const jdf_function_entry_t* 
         if( dl->dep_flags & JDF_DEP_FLOW_IN ) {
             psa = sa_dep_in;
             sep = sep_in;
+            pnb = &nb_dep_in;
         } else if ( dl->dep_flags & JDF_DEP_FLOW_OUT ) {
             psa = sa_dep_out;
             sep = sep_out;
+            pnb = &nb_dep_out;
             flow_datatype_mask |= (1U << dl->dep_datatype_index);
         } else {
             jdf_fatal(JDF_OBJECT_LINENO(dl), "This dependency is neither a DEP_IN or a DEP_OUT (flag 0x%x)\n");
@@ -2695,6 +2698,7 @@ static int jdf_generate_dataflow( const jdf_t *jdf, const jdf_function_entry_t* 
             indepnorange = jdf_generate_dependency(jdf, flow, dl, dl->guard->calltrue,
                                                    JDF_OBJECT_ONAME(dl), condname, f) && indepnorange;
             string_arena_add_string(psa, "%s&%s", sep, JDF_OBJECT_ONAME(dl));
+            (*pnb)++;
             sprintf(sep, ",\n ");
         } else if( dl->guard->guard_type == JDF_GUARD_BINARY ) {
             sprintf(condname, "expr_of_cond_for_%s", JDF_OBJECT_ONAME(dl));
@@ -2703,6 +2707,7 @@ static int jdf_generate_dataflow( const jdf_t *jdf, const jdf_function_entry_t* 
             indepnorange = jdf_generate_dependency(jdf, flow, dl, dl->guard->calltrue,
                                                    JDF_OBJECT_ONAME(dl), condname, f) && indepnorange;
             string_arena_add_string(psa, "%s&%s", sep, JDF_OBJECT_ONAME(dl));
+            (*pnb)++;
             sprintf(sep, ",\n ");
         } else if( dl->guard->guard_type == JDF_GUARD_TERNARY ) {
             jdf_expr_t not = jdf_empty_expr;
@@ -2713,6 +2718,7 @@ static int jdf_generate_dataflow( const jdf_t *jdf, const jdf_function_entry_t* 
             sprintf(condname, "&expr_of_cond_for_%s", depname);
             indepnorange = jdf_generate_dependency(jdf, flow, dl, dl->guard->calltrue, depname, condname, f) && indepnorange;
             string_arena_add_string(psa, "%s&%s", sep, depname);
+            (*pnb)++;
             sprintf(sep, ",\n ");
 
             sprintf(depname, "%s_iffalse", JDF_OBJECT_ONAME(dl));
@@ -2723,6 +2729,7 @@ static int jdf_generate_dataflow( const jdf_t *jdf, const jdf_function_entry_t* 
             sprintf(condname, "&expr_of_cond_for_%s", depname);
             indepnorange = jdf_generate_dependency(jdf, flow, dl, dl->guard->callfalse, depname, condname, f) && indepnorange;
             string_arena_add_string(psa, "%s&%s", sep, depname);
+            (*pnb)++;
         }
     }
     free(depname);
@@ -2742,10 +2749,8 @@ static int jdf_generate_dataflow( const jdf_t *jdf, const jdf_function_entry_t* 
     if(strlen(string_arena_get_string(sa_dep_in)) == 0) {
         string_arena_add_string(sa_dep_in, "NULL");
     } else {
-        int deps_in = 0;
-        for(dl = flow->deps; NULL != dl; dl = dl->next) {
-            deps_in += !!(dl->dep_flags & JDF_DEP_FLOW_IN);
-        }
+        /* What must fit is what has been emitted: a ternary dependency takes two entries */
+        int deps_in = nb_dep_in;
         string_arena_add_string(sa,
                                 "#if MAX_DEP_IN_COUNT < %d  /* number of input dependencies */\n"
                                 "    #error Too many input dependencies (supports up to MAX_DEP_IN_COUNT [=%d] but found %d). Fix the code or recompile PaRSEC with a larger MAX_DEP_IN_COUNT.\n"
@@ -2755,10 +2760,7 @@ static int jdf_generate_dataflow( const jdf_t *jdf, const jdf_function_entry_t* 
     if(strlen(string_arena_get_string(sa_dep_out)) == 0) {
         string_arena_add_string(sa_dep_out, "NULL");
     } else {
-        int deps_out = 0;
-        for(dl = flow->deps; NULL != dl; dl = dl->next) {
-            deps_out += !!(dl->dep_flags & JDF_DEP_FLOW_OUT);
-        }
+        int deps_out = nb_dep_out;
         string_arena_add_string(sa,
                                 "#if MAX_DEP_OUT_COUNT < %d  /* number of output dependencies */\n"
                                 "    #error Too many output dependencies (supports up to MAX_DEP_OUT_COUNT [=%d] but found %d). Fix the code or recompile PaRSEC with a larger MAX_DEP_OUT_COUNT.\n"
